@@ -41,6 +41,7 @@ func unmarshal(data []byte, v interface{}, optFuncs ...DecodeOptionFunc) error {
 	ctx := decoder.TakeRuntimeContext()
 	ctx.Buf = src
 	ctx.Option.Flags = 0
+	ctx.Option.Context = nil // the pooled option block may still hold the context of an earlier call
 	for _, optFunc := range optFuncs {
 		optFunc(ctx.Option)
 	}
@@ -98,6 +99,7 @@ func extractFromPath(path *Path, data []byte, optFuncs ...DecodeOptionFunc) ([][
 	ctx.Buf = src
 	ctx.Option.Flags = 0
 	ctx.Option.Flags |= decoder.PathOption
+	ctx.Option.Context = nil // the pooled option block may still hold the context of an earlier call
 	ctx.Option.Path = path.path
 	for _, optFunc := range optFuncs {
 		optFunc(ctx.Option)
@@ -131,6 +133,7 @@ func unmarshalNoEscape(data []byte, v interface{}, optFuncs ...DecodeOptionFunc)
 	ctx := decoder.TakeRuntimeContext()
 	ctx.Buf = src
 	ctx.Option.Flags = 0
+	ctx.Option.Context = nil // the pooled option block may still hold the context of an earlier call
 	for _, optFunc := range optFuncs {
 		optFunc(ctx.Option)
 	}
